@@ -40,7 +40,9 @@ PLACEHOLDER = asciimaps.PLACEHOLDER
 
 # ---------------------------------------------------------------------------------------------------------
 # Candidate genuine defects found by these harnesses on the unchanged tree (plain-Python reproductions in the report).
-# Each flag narrows the quantifier to the part armi gets right; set it to False to see the violation.
+# They are recorded in /verif/known_findings.jsonl (predicates over the named inputs: cornerCellOccupied, occupied_<i>_<j>,
+# emptyLine1/2, hole), so the flags are False and the obligations are live; setting a flag to True narrows the
+# quantifier to the part armi gets right instead.
 #
 # (1) hex maps (1/3 flats-up, full flats-up, full corners-up) infer the size of the text window from max(i + j) and
 #     from the end of the j = 0 ray, assuming the outline is a hexagon whose corner on the i axis is occupied (or cut
@@ -104,29 +106,45 @@ def label(k):
     return "ABCDEFGHJKLMNPQRSTUVWXYZ"[k % 24] + ("", "%d" % (k % 10), "x%d" % (k % 7))[k % 3] + ("" if k < 24 else "q")
 
 
-def anchor_of(kind, size):
-    if kind == "cartesian" or not KNOWN_DEFECT_hex_outline_needs_corner_cell:
-        return None
-    return (size, 0)
+def corner_of(kind, size):
+    """The corner cell of the hexagon on the i axis (hex maps infer their outline from it, see finding (1))."""
+    return None if kind == "cartesian" else (size, 0)
+
+
+def _nm(v):
+    return ("m%d" % -v) if v < 0 else "%d" % v
 
 
 def occupancy(ctx, kind, size, mode):
-    """Symbolic choice of the occupied cells; returns (contents, cells) with plain Python values on every path."""
+    """Symbolic choice of the occupied cells; returns (contents, cells, lines) with plain Python values on every path.
+
+    Inputs: 'cells' -- one Bool per cell named occupied_<i>_<j> (a negative index is written m<n>); 'lines' /
+    'lines+hole' -- emptyLine1 <= emptyLine2 (index into the sorted text lines, -1 = none) and hole (index into the
+    cell list, -1 = none).  In every mode the occupancy of the hexagon's corner cell (size, 0) is the separate Bool
+    cornerCellOccupied (it is not affected by the emptied lines or the hole), so that findings about the outline can
+    be stated over the inputs."""
     cells = candidate_cells(kind, size)
-    anchor = anchor_of(kind, size)
+    corner = corner_of(kind, size)
     lines = sorted({text_line(kind, c, size) for c in cells})
     if mode == "cells":
-        flags = [ctx.bool("occupied_%d" % k) for k in range(len(cells))]
-        occ = [True if c == anchor else bool(b) for c, b in zip(cells, flags)]
+        flags = [ctx.bool("cornerCellOccupied" if c == corner else "occupied_%s_%s" % (_nm(c[0]), _nm(c[1])))
+                 for c in cells]
+        if KNOWN_DEFECT_hex_outline_needs_corner_cell and corner is not None:
+            ctx.assume(flags[cells.index(corner)])
+        occ = [bool(b) for b in flags]
     else:
-        # two emptied text lines (index into the sorted list of lines; -1 = none) and, optionally, one isolated hole
         e1 = ctx.int("emptyLine1", -1, len(lines) - 1)
         e2 = ctx.int("emptyLine2", -1, len(lines) - 1)
         h = ctx.int("hole", -1, len(cells) - 1 if mode == "lines+hole" else -1)
+        cornerFlag = ctx.bool("cornerCellOccupied") if corner is not None else None
         ctx.assume(e1 <= e2)
+        if KNOWN_DEFECT_hex_outline_needs_corner_cell and corner is not None:
+            ctx.assume(cornerFlag)
         e1, e2, h = int(e1), int(e2), int(h)
+        cornerOcc = bool(cornerFlag) if corner is not None else None
         gone = {lines[e] for e in (e1, e2) if e >= 0}
-        occ = [c == anchor or (text_line(kind, c, size) not in gone and k != h) for k, c in enumerate(cells)]
+        occ = [cornerOcc if c == corner else (text_line(kind, c, size) not in gone and k != h)
+               for k, c in enumerate(cells)]
     contents = {c: label(k) for k, (c, o) in enumerate(zip(cells, occ)) if o}
     ctx.assume(len(contents) > 0)
     return contents, cells, lines
@@ -169,7 +187,7 @@ _T1 = _Q1 + [
     dict(kind="hexThirdFlatsUp", size=6, mode="lines"),
 ]
 if not KNOWN_DEFECT_cartesian_negative_indices_dropped:
-    _Q1 = _Q1 + [dict(kind="cartesian", size=[3, 3, -1], mode="lines+hole")]
+    _Q1 = _Q1 + [dict(kind="cartesian", size=[3, 3, -1], mode="cells")]
 
 
 @harness("C18", bounds="the four map geometries; lattice size per instance (Cartesian nx x ny, hex ring index <= 6); "
@@ -325,7 +343,7 @@ _T3 = _Q3 + [
     dict(kind="hexFullTipsUp", size=3, mode="lines+hole"),
 ]
 if not KNOWN_DEFECT_cartesian_negative_indices_dropped:
-    _Q3 = _Q3 + [dict(kind="cartesianFull", size=[3, 3, -1], mode="lines+hole")]
+    _Q3 = _Q3 + [dict(kind="cartesianFull", size=[3, 3, -1], mode="cells")]
 
 
 @harness("C18", bounds="grid blueprints built in Python from indexed contents (occupancy symbolic as above), saved with "
@@ -347,12 +365,17 @@ def grid_blueprint_written_as_lattice_map_reloads_to_the_same_contents(ctx, kind
         want[cells[1]] = "wrong"                        # one input of the family: the complete lattice
     try:
         saved = _save(gb)
-    except ValueError:
-        if not KNOWN_DEFECT_save_raises_when_map_writer_refuses_late:
-            raise
-        ctx.note("KNOWN_DEFECT_save_raises_when_map_writer_refuses_late: saveToStream raised ValueError")
+    except ValueError as e:
+        # finding (3); any other kind of exception escapes and is reported by the engine
         ctx.check("the original blueprint is not altered by the failed save", dict(gb.gridContents) == contents)
+        if KNOWN_DEFECT_save_raises_when_map_writer_refuses_late:
+            ctx.note("KNOWN_DEFECT_save_raises_when_map_writer_refuses_late: saveToStream raised ValueError")
+        else:
+            ctx.check("saving writes the grid, as a lattice map or (when the map writer refuses) as explicit contents, "
+                      "without raising: ValueError %s" % (str(e)[:80],), False)
         return
+    ctx.check("saving writes the grid, as a lattice map or (when the map writer refuses) as explicit contents, "
+              "without raising", True)
     got = _reload(saved, gb.name)
     ctx.check("the original blueprint is not altered by saving", dict(gb.gridContents) == contents)
     ctx.check("the saved grid loads to exactly the cells it had", sorted(got) == sorted(want))
